@@ -493,6 +493,8 @@ def gen_large(rng, target, want_opt, want_tsig):
         i += 1
     # the last record set takes the message to exactly `target`
     own = [b"last"] + base
+    m0, _ = mk_message(c)
+    size = true_full_size(c, m0)
     rest = target - size - (5 + 2 + 10)
     if rest < 1:
         return None
